@@ -274,7 +274,7 @@ func runC18(b *fw.B) {
 					}
 					nCalls := len(eng.Calls)
 					for j := 1; j <= nCalls; j++ {
-						for verdict := 1; verdict <= 4; verdict++ {
+						for verdict := 1; verdict <= 5; verdict++ {
 							validate = (j+verdict)%2 == 0
 							var ferr error
 							var feng *sim.ScriptedEngine
@@ -297,7 +297,7 @@ func runC18(b *fw.B) {
 								if j-1 < len(feng.Calls) {
 									site = feng.Calls[j-1].Site
 								}
-								viol(fmt.Sprintf("engine-fault/swallowed/%s/%s", site, []string{"", "invalid", "error", "error-wrapping-deadline-exceeded", "error-wrapping-canceled"}[verdict]), fmt.Sprintf("%s: engine call %d (%s) answered %s but the transition reported success", where, j, site, []string{"", "invalid", "error", "error-wrapping-deadline-exceeded", "error-wrapping-canceled"}[verdict]))
+								viol(fmt.Sprintf("engine-fault/swallowed/%s/%s", site, []string{"", "invalid", "error", "error-wrapping-deadline-exceeded", "error-wrapping-canceled", "error-with-the-verdict-flag-left-true"}[verdict]), fmt.Sprintf("%s: engine call %d (%s) answered %s but the transition reported success", where, j, site, []string{"", "invalid", "error", "error-wrapping-deadline-exceeded", "error-wrapping-canceled", "error-with-the-verdict-flag-left-true"}[verdict]))
 								return false
 							}
 						}
